@@ -75,10 +75,35 @@ var syntaxSeeds = []string{
 	"{\n\ta: 1\n}\n",
 }
 
+// operatorSeeds: every unary operator applied to every unary operand and
+// every binary operator followed by every unary operator (tokens that must not
+// fuse when printed: `> =~`, `< -`, `1 - -1`, `! =~` ...).
+func operatorSeeds() []string {
+	un := []string{"<", "<=", ">", ">=", "!=", "=~", "!~", "!", "-", "+", "*"}
+	bin := []string{"+", "-", "*", "/", "&", "|", "&&", "||", "==", "!=", "<", "<=", ">", ">=", "=~", "!~"}
+	var out []string
+	for _, a := range un {
+		for _, b := range un {
+			out = append(out, fmt.Sprintf("x: %s %s y\n", a, b))
+			out = append(out, fmt.Sprintf("x: [1, %s %s y, 3]\n", a, b))
+		}
+		out = append(out, fmt.Sprintf("x: %s (y)\n", a), fmt.Sprintf("x: %s y.z\n", a), fmt.Sprintf("x: %s -1\n", a), fmt.Sprintf("x: %s \"s\"\n", a))
+	}
+	for _, b := range bin {
+		for _, a := range un {
+			out = append(out, fmt.Sprintf("x: y %s %s z\n", b, a))
+		}
+	}
+	return out
+}
+
 func seeds(r *core.Run) []gen.CorpusFile {
 	var out []gen.CorpusFile
 	for i, s := range syntaxSeeds {
 		out = append(out, gen.CorpusFile{Name: fmt.Sprintf("syntax-seed-%d", i), Src: []byte(s)})
+	}
+	for i, s := range operatorSeeds() {
+		out = append(out, gen.CorpusFile{Name: fmt.Sprintf("operator-seed-%d", i), Src: []byte(s)})
 	}
 	pool := gen.Pool("order")
 	n := 0
